@@ -85,6 +85,23 @@ AllCasePairs == UNION {{Mk("C10/" \o AllBases[b].name \o "/case/" \o AllBases[b]
                         : ij \in {x \in (1..Len(AllBases[b].vars)) \X (1..Len(AllBases[b].vars)) : x[1] < x[2]}, nm \in PairNames} : b \in 1..Len(AllBases)}
 FuncCasePairs == {Mk("C10/" \o AllBases[b].name \o "/fncase/" \o nm[1] \o "-" \o nm[2], AllBases[b], [v |-> Empty, f |-> (AllBases[b].funcs[1] :> nm[1]) @@ (AllBases[b].funcs[2] :> nm[2])], IsWorld(AllBases[b]))
                   : b \in {k \in 1..Len(AllBases) : Len(AllBases[k].funcs) = 2}, nm \in {<<"work", "Work">>, <<"FN", "fn">>, <<"_x", "_X">>}}
+\* names that merely CONTAIN what the back-ends use (a reserved name as suffix, prefix or infix), that start with a keyword or builtin name, that are long
+\* and share a long prefix, or that differ in a trailing digit: behaviour must not depend on the shape of a name
+ShapeNames == <<"path_h1", "col_h0", "low_h10", "x_rv0", "my_fa0", "a_fv0", "n_dv1", "q_ma0", "_h1x", "h1", "f1", "rv0", "x_len", "len_", "the_ret", "i_", "a__b", "x1_h22", "v_",
+                "forward", "iffy", "lenx", "printer", "returned", "inputs", "copy2", "range_", "truex", "nilly", "funcy", "vary", "switcher", "caseA", "defaultX", "breaker", "continued",
+                "importer", "elsewhere", "itoa_", "existsx", "readme", "writer", "panic2",
+                "a_very_long_identifier_name_that_goes_on_and_on_1", "a_very_long_identifier_name_that_goes_on_and_on_2", "Z9", "z_9_", "ONE", "camelCaseName", "snake_case_name">>
+ShapeBases == {"multi", "func", "loops", "slice", "string", "callerlocal", "arith"}
+ShapeOf(b) == UNION {{Mk("C10/" \o AllBases[b].name \o "/shape/" \o AllBases[b].vars[i] \o "/" \o ShapeNames[n], AllBases[b], [v |-> (AllBases[b].vars[i] :> ShapeNames[n]), f |-> Empty], IsWorld(AllBases[b]))
+                      : n \in 1..Len(ShapeNames)} : i \in 1..Len(AllBases[b].vars)}
+Shape == UNION {ShapeOf(b) : b \in {k \in 1..Len(AllBases) : AllBases[k].name \in ShapeBases}}
+\* two variables of one program renamed to names of the same shape (both operands of a swap, caller and callee locals, ...)
+ShapePairs == {<<"path_h1", "path_h2">>, <<"a_very_long_identifier_name_that_goes_on_and_on_1", "a_very_long_identifier_name_that_goes_on_and_on_2">>, <<"x_rv0", "x_rv1">>, <<"forward", "fort">>, <<"h1", "h2">>, <<"v_", "v__">>}
+ShapePair == UNION {{Mk("C10/" \o AllBases[b].name \o "/shape2/" \o AllBases[b].vars[ij[1]] \o "+" \o AllBases[b].vars[ij[2]] \o "/" \o nm[1], AllBases[b],
+                        [v |-> (AllBases[b].vars[ij[1]] :> nm[1]) @@ (AllBases[b].vars[ij[2]] :> nm[2]), f |-> Empty], IsWorld(AllBases[b]))
+                     : ij \in {x \in (1..Len(AllBases[b].vars)) \X (1..Len(AllBases[b].vars)) : x[1] < x[2]}, nm \in ShapePairs} : b \in {k \in 1..Len(AllBases) : AllBases[k].name \in ShapeBases}}
+FuncShape == UNION {{Mk("C10/" \o AllBases[b].name \o "/fnshape/" \o AllBases[b].funcs[i] \o "/" \o nm, AllBases[b], [v |-> Empty, f |-> (AllBases[b].funcs[i] :> nm)], IsWorld(AllBases[b]))
+                     : nm \in {"forward", "lenx", "printer", "do_h1", "x_rv0", "f1", "h1", "get_", "a__b", "returned", "a_very_long_function_name_that_goes_on_and_on_and_on_1"}} : b \in {k \in 1..Len(AllBases) : Len(AllBases[k].funcs) > 0}, i \in {1}}
 Rot(vs) == [i \in 1..Len(vs) |-> vs[(i % Len(vs)) + 1]]
 Rotate == {Mk("C10/" \o AllBases[b].name \o "/rotate/vars", AllBases[b], [v |-> [x \in SetOf(AllBases[b].vars) |-> Rot(AllBases[b].vars)[CHOOSE i \in 1..Len(AllBases[b].vars) : AllBases[b].vars[i] = x]], f |-> Empty], IsWorld(AllBases[b]))
            : b \in 1..Len(AllBases)}
@@ -100,6 +117,6 @@ Compose == {Mk("C10/" \o q[1] \o "/compose/" \o t[1] \o "-" \o t[2] \o "-" \o t[
                IF o = "ab" THEN [v |-> (q[4] :> t[3]) @@ (q[5] :> t[4]), f |-> (IF q[2] = q[3] THEN (q[2] :> t[1]) ELSE (q[2] :> t[1]) @@ (q[3] :> t[2]))]
                ELSE [v |-> (q[4] :> t[4]) @@ (q[5] :> t[3]), f |-> (IF q[2] = q[3] THEN (q[2] :> t[2]) ELSE (q[2] :> t[2]) @@ (q[3] :> t[1]))], FALSE)
             : q \in Quads, t \in {x \in Templates : LegalT(x)}, o \in {"ab", "ba"}}
-All == Identity \cup OneVar \cup OneFunc \cup Compose \cup CasePairs \cup AllCasePairs \cup FuncCasePairs \cup Rotate
+All == Shape \cup ShapePair \cup FuncShape \cup Identity \cup OneVar \cup OneFunc \cup Compose \cup CasePairs \cup AllCasePairs \cup FuncCasePairs \cup Rotate
 ASSUME ndJsonSerialize("fam.ndjson", SetToSeq(All))
 =============================================================================
